@@ -34,8 +34,15 @@ COLL_C = ['list-ndarray', 'list-strided', '2d', '2d-F', '2d-strided', 'container
 COLL_PY = ['list-list', 'list-ndarray', 'list-strided', '2d', '2d-F', '2d-strided', 'container', 'list-array']
 
 
+INT_KINDS = ('int-list', 'int-ndarray', 'list-intlist', 'list-intarray', '2d-int')
+
+
 def make_series(vals, kind, nd=1):
     import numpy as np
+    if kind == 'int-list':            # integer-valued data as Python ints / an integer array (Python engine only)
+        return [int(x) for x in vals]
+    if kind == 'int-ndarray':
+        return np.array([int(x) for x in vals], dtype=np.int64)
     if kind == 'list':
         return [list(x) if nd > 1 else x for x in vals] if nd > 1 else list(vals)
     if kind == 'tuple':
@@ -65,6 +72,12 @@ def make_coll(S, kind, nd=1):
     from dtaidistance.util import SeriesContainer
     if kind == 'list-list':
         return [list(s) for s in S]
+    if kind == 'list-intlist':
+        return [[int(x) for x in s] for s in S]
+    if kind == 'list-intarray':
+        return [np.array([int(x) for x in s], dtype=np.int64) for s in S]
+    if kind == '2d-int':
+        return np.array([[int(x) for x in s] for s in S], dtype=np.int64)
     if kind == 'list-ndarray':
         return [np.array(s, dtype=np.double) for s in S]
     if kind == 'list-strided':
@@ -191,6 +204,8 @@ def registry():
         return np.array(SeriesContainer.wrap(S)[0], dtype=np.double)
     coll('dba', 'np', lambda S: dtw_barycenter.dba(S, first(S), use_c=False))
     coll('dba(use_c)', 'c', lambda S: dtw_barycenter.dba(S, first(S), use_c=True))
+    coll('dba[c as given]', 'np', lambda S: dtw_barycenter.dba(S, S[0], use_c=False))
+    coll('dba_loop[c as given]', 'np', lambda S: dtw_barycenter.dba_loop(S, c=S[0], max_it=2, use_c=False))
     coll('dba_loop', 'np', lambda S: dtw_barycenter.dba_loop(S, c=first(S), max_it=2, use_c=False))
     coll('dba_loop(use_c)', 'c', lambda S: dtw_barycenter.dba_loop(S, c=first(S), max_it=2, use_c=True))
 
@@ -228,7 +243,8 @@ NDIM_NAMES = ['dtw_ndim.distance', 'dtw_ndim.distance_fast', 'dtw_ndim.warping_p
               'dtw_ndim.ub_euclidean']
 SERIES_ND = ['ndarray', 'F', 'strided', 'reversed', 'Tview', 'ndarray']
 COLL_NAMES = ['dtw.distance_matrix', 'dtw.distance_matrix[block]', 'dtw.distance_matrix_fast',
-              'dtw.distance_matrix(use_c,compact)', 'dba', 'dba(use_c)', 'dba_loop', 'dba_loop(use_c)', 'subsequence_search',
+              'dtw.distance_matrix(use_c,compact)', 'dba', 'dba(use_c)', 'dba_loop', 'dba_loop(use_c)', 'dba[c as given]',
+              'dba_loop[c as given]', 'subsequence_search',
               'subsequence_search(use_c)', 'Hierarchical.fit', 'KMeans.fit', 'KMeans.fit(use_c)']
 _ENG = None
 
@@ -243,7 +259,10 @@ def _eng(name):
 @st.composite
 def _case_call(draw):
     name = draw(st.sampled_from(PAIR_NAMES + COLL_NAMES))
-    regime = draw(st.sampled_from(['L', 'L', 'F']))
+    regime = draw(st.sampled_from(['L', 'L', 'F', 'I']))
+    integer = regime == 'I'
+    if integer:
+        regime = 'L'
     case = {'routine': name}
     if name in NDIM_NAMES:
         nd = draw(st.integers(2, 3))
@@ -260,6 +279,10 @@ def _case_call(draw):
         kinds = SERIES_C if c else (SERIES_PY if 'subsequence' not in name and name != 'dtw.warping_paths'
                                      and name != 'dtw.warping_path' and name != 'dtw.warp' else
                                      ['list', 'ndarray', 'strided', 'reversed', 'array', 'tuple'])
+        if integer and not c:
+            case['s1'] = [float(round(x)) for x in case['s1']]
+            case['s2'] = [float(round(x)) for x in case['s2']]
+            kinds = kinds + ['int-list', 'int-ndarray', 'int-list']
         case['c1'] = draw(st.sampled_from(kinds))
         case['c2'] = draw(st.sampled_from(kinds))
     else:
@@ -269,6 +292,9 @@ def _case_call(draw):
         case['series'] = [draw(gen.series(L if eq else 2, L if eq else 6, regime, 1)) for _ in range(n)]
         c = name.endswith(('_fast', '(use_c)', '(use_c,compact)'))
         kinds = [k for k in (COLL_C if c else COLL_PY)]
+        if integer and not c:
+            case['series'] = [[float(round(x)) for x in s] for s in case['series']]
+            kinds = kinds + ['list-intlist', 'list-intarray', '2d-int', 'list-intlist']
         if len({len(s) for s in case['series']}) != 1:
             kinds = [k for k in kinds if not k.startswith('2d')]
         case['cont'] = draw(st.sampled_from(kinds))
@@ -297,7 +323,7 @@ def run_call(case):
     noncanon = (case.get('c1'), case.get('c2'), case.get('cont'))
     res.cls('routine=' + name, 'eng=' + ent['eng'])
     res.nontrivial = any(k in ('strided', 'reversed', 'array', 'tuple', '2d-F', 'F', 'Tview', '2d-strided', 'container', 'list-strided',
-                               'list-array', '2d') for k in noncanon if k)
+                               'list-array', '2d') + INT_KINDS for k in noncanon if k)
     canon_args = _args(case, True)
     expv, exc0 = libcall(ent['fn'], *canon_args)
     if exc0:
